@@ -10,7 +10,10 @@ import (
 	"fmt"
 	"go/ast"
 	"go/token"
+	"reflect"
+	"regexp"
 	"sort"
+	"strconv"
 	"strings"
 )
 
@@ -37,6 +40,79 @@ type CallArgSpec struct {
 	Arg     int      `json:"arg"`
 	Pkg     string   `json:"pkg"`
 	ConstNS string   `json:"const_ns"`
+}
+
+// "jsonkeys": every `json:"key"` struct tag in the listed package directories whose key matches the pattern and whose
+// field is a scalar (integer or string, possibly behind a pointer) -> List (String × Bool)  (key, value-is-a-string),
+// sorted by key. A key that occurs with both kinds counts as a number.
+type JSONKeySpec struct {
+	Name    string   `json:"name"`
+	NS      string   `json:"ns"`
+	Dirs    []string `json:"dirs"`
+	Pattern string   `json:"pattern"`
+}
+
+func genJSONKeys(root string, js *JSONKeySpec, out *strings.Builder) {
+	re, err := regexp.Compile(js.Pattern)
+	if err != nil {
+		die("jsonkeys: bad pattern: %v", err)
+	}
+	kinds := map[string]string{}
+	for _, dir := range js.Dirs {
+		p := loadPkg(root, dir)
+		for _, f := range p.files {
+			ast.Inspect(f, func(n ast.Node) bool {
+				st, ok := n.(*ast.StructType)
+				if !ok || st.Fields == nil {
+					return true
+				}
+				for _, fl := range st.Fields.List {
+					if fl.Tag == nil {
+						continue
+					}
+					tag, err := strconv.Unquote(fl.Tag.Value)
+					if err != nil {
+						continue
+					}
+					key := strings.Split(reflect.StructTag(tag).Get("json"), ",")[0]
+					if key == "" || key == "-" || !re.MatchString(key) {
+						continue
+					}
+					t := fl.Type
+					if se, ok := t.(*ast.StarExpr); ok {
+						t = se.X
+					}
+					kind := ""
+					switch exprIdent(t) {
+					case "int", "int32", "int64", "uint", "uint32", "uint64":
+						kind = "num"
+					case "string":
+						kind = "str"
+					default:
+						continue // not a scalar: cannot carry a bare identity
+					}
+					if old, ok := kinds[key]; ok && old != kind {
+						kind = "num" // used with both kinds somewhere: client identities are numbers, send a number
+					}
+					kinds[key] = kind
+				}
+				return true
+			})
+		}
+	}
+	if len(kinds) == 0 {
+		die("jsonkeys: no key matches %s", js.Pattern)
+	}
+	keys := make([]string, 0, len(kinds))
+	for k := range kinds {
+		keys = append(keys, k)
+	}
+	sort.Strings(keys)
+	var items []string
+	for _, k := range keys {
+		items = append(items, fmt.Sprintf("(%s, %v)", leanStr(k), kinds[k] == "str"))
+	}
+	fmt.Fprintf(out, "namespace %s\ndef %s : List (String × Bool) := [%s]\nend %s\n\n", js.NS, js.Name, strings.Join(items, ", "), js.NS)
 }
 
 func genEnum(root string, es *EnumSpec, out *strings.Builder) {
@@ -215,6 +291,9 @@ func fdParam(f *ast.File, ce *ast.CallExpr, name string) bool {
 func genTables(repo string, spec *Spec, cs *strings.Builder) {
 	for i := range spec.Enums {
 		genEnum(repo, &spec.Enums[i], cs)
+	}
+	for i := range spec.JSONKeys {
+		genJSONKeys(repo, &spec.JSONKeys[i], cs)
 	}
 	if len(spec.SelSets)+len(spec.CallArgs) > 0 {
 		cs.WriteString("namespace Sel\n")
